@@ -424,8 +424,10 @@ type C17E2ECase struct {
 	// JSONBody: error statuses are sent as application/json (the status still decides the class: the statement names the statuses)
 	JSONBody bool `json:"json_body,omitempty"`
 	// EndAt k >= 1: the caller's context ends when the k-th wait of the scripted call begins; EndHow says whether it is cancelled or its deadline passes
-	EndAt  int    `json:"end_at,omitempty"`
-	EndHow string `json:"end_how,omitempty"`
+	// SessSuffix: the tail of the session id the Streamable peer issues (ids are opaque; some end in digits that look like a status)
+	SessSuffix string `json:"sess_suffix,omitempty"`
+	EndAt      int    `json:"end_at,omitempty"`
+	EndHow     string `json:"end_how,omitempty"`
 }
 
 var c17Bodies = []string{"scripted status", "", "upstream said 500 Internal", "retry in 500 ms", "code 503", "error 429 ", "ok"}
@@ -477,6 +479,9 @@ func genC17E2E(t *rapid.T) C17E2ECase {
 		}
 	}
 	c.RetryAfter = rapid.SampledFrom([]string{"", "", "2", "120", "0", "Wed, 21 Oct 2099 07:28:00 GMT", "soon"}).Draw(t, "retryafter")
+	if c.Kind == 0 {
+		c.SessSuffix = rapid.SampledFrom([]string{"", "", "503", "0429", "x-408", "abc500", "409"}).Draw(t, "sesssuffix")
+	}
 	if rapid.IntRange(0, 3).Draw(t, "jsonbody?") == 0 {
 		c.JSONBody = true
 		c.Body = rapid.SampledFrom(c17JSONBodies).Draw(t, "jsonbody")
@@ -529,7 +534,7 @@ func execC17E2E(c C17E2ECase) *Failure {
 		}
 		return "503"
 	}
-	fake := &FakeServer{Legacy: c.Kind == 1, Stateful: c.Kind == 0}
+	fake := &FakeServer{Legacy: c.Kind == 1, Stateful: c.Kind == 0, SessionSuffix: c.SessSuffix}
 	fake.Plan = func(m, kind string, nth int) FakeAction {
 		if m != method {
 			return FakeAction{}
